@@ -130,7 +130,17 @@ func mk[S, D signal.SignalTypes](fn, s, d string, conv func(*signal.Buffer[S], *
 					a.Length = n / channels
 				}
 				base := signal.Alloc[S](a)
-				src, csrc, dst, size = base, base, signal.Alloc[D](a), n
+				dbuf := signal.Alloc[D](a)
+				if fix == 3 {
+					// both buffers come out of a pool after a round trip through it
+					ps, pd := signal.PoolAlloc[S](a), signal.PoolAlloc[D](a)
+					b1, d1 := ps.Get(), pd.Get()
+					b1.AppendSample(1)
+					ps.Put(b1)
+					pd.Put(d1)
+					base, dbuf = ps.Get(), pd.Get()
+				}
+				src, csrc, dst, size = base, base, dbuf, n
 				for base.Len() < n && a.Length < fr {
 					base.AppendSample(0)
 					dst.AppendSample(D(1)) // stale content a skipped conversion would leave behind
